@@ -34,7 +34,7 @@ KNOWN = 'gmm-equal-count-seeding'
 R = 262144
 
 
-def make_beads(rng, balanced, container='float', force_low_pile=False):
+def make_beads(rng, balanced, container='float', force_low_pile=False, force_low_threshold=False):
     # container 'float': RFI stored directly ($DATATYPE=F, range 2^18); 'int': 10-bit, 4-decade log-amplified integers
     # that the real to_rfi converts (RFI range [1, 9910])
     R, floor = (262144, 8.0) if container == 'float' else (9910.0, 3.0)
@@ -45,6 +45,11 @@ def make_beads(rng, balanced, container='float', force_low_pile=False):
     sat_lo = (not blank) and rng.random() < 0.15
     all_zero = bool(rng.random() < 0.5)
     sel_scale = 'log' if (container == 'float' and rng.random() < 0.3) else None
+    sel_low = 100.0 if (container == 'float' and sel_scale is None and rng.random() < 0.2) else None
+    if force_low_threshold:
+        # an explicit lower selection threshold (the upper one left at its default) and a brightest population piled up at the
+        # upper limit: that population still does not take part in the fit
+        sel_scale, sel_low, sat_hi = None, 100.0, True
     if force_low_pile:
         # the dimmest population sits entirely ON the lower limit 0 and the selection runs on a log axis
         blank, sat_lo, all_zero, sel_scale = False, True, True, 'log'
@@ -86,6 +91,9 @@ def make_beads(rng, balanced, container='float', force_low_pile=False):
         if sat_lo:
             med[0] = 0.0
             lim[0] = True
+        if sel_low is not None:
+            # populations within a factor 3 of the explicit lower threshold may legitimately be set aside (either accepted)
+            lim = [l or (mm < 3 * sel_low) for l, mm in zip(lim, med)]
         if sel_scale == 'log':
             # on a log axis that starts at 1e-15 the default upper threshold (98.5 % of the axis) lies near 0.5 R: a
             # population brighter than R/10 may legitimately be set aside (either outcome accepted)
@@ -113,7 +121,7 @@ def make_beads(rng, balanced, container='float', force_low_pile=False):
     X = np.column_stack(cols)[order]
     truth = truth[order]
     return dict(container=container, K=K, C=C, X=X, truth=truth, laws=laws, mef=mefs, med=rfis, atlimit=atlimit, blank=blank,
-                sat_hi=sat_hi, sat_lo=sat_lo, sizes=sizes, sel_scale=sel_scale)
+                sat_hi=sat_hi, sat_lo=sat_lo, sizes=sizes, sel_scale=sel_scale, sel_low=sel_low)
 
 
 def predicate_known(F, s, clustering_channels, truth, K):
@@ -137,6 +145,8 @@ def run_once(F, s, bd, mef_values, chans, cl_ch, stat, seed, **kw):
     kw = dict(full_output=True, **kw) if 'full_output' not in kw else dict(kw)
     if bd.get('sel_scale'):
         kw['selection_params'] = {'scale': bd['sel_scale']}       # the documented selection on another axis scale
+    if bd.get('sel_low') is not None:
+        kw['selection_params'] = {'low': bd['sel_low']}           # an explicit lower threshold, the upper one by default
     return core.attempt(F.mef.get_transform_fxn, s, mef_values, chans, clustering_channels=cl_ch,
                         statistic_fxn=stat, **kw)
 
@@ -154,9 +164,10 @@ def run(ctx):
         mon.cid = cid
         container = 'int' if rng.random() < 0.35 else 'float'
         low_pile = cid[0] == 'bal' and cid[1] % 11 == 5
-        if low_pile:
+        low_thr = cid[0] == 'bal' and cid[1] % 11 == 7
+        if low_pile or low_thr:
             container = 'float'
-        bd = make_beads(rng, cid[0] == 'bal', container, force_low_pile=low_pile)
+        bd = make_beads(rng, cid[0] == 'bal', container, force_low_pile=low_pile, force_low_threshold=low_thr)
         K, C = bd['K'], bd['C']
         names = ['FL%d' % (c + 1) for c in range(C)]
         if container == 'float':
